@@ -39,7 +39,7 @@ def run_selftest(pids, inplace=False, only=None, keep=False, verbose=True):
         os.makedirs(cache)
         src_t = os.path.join(VERIF, ".cache", "target")
         if os.path.isdir(src_t):
-            sh(["cp", "-a", src_t, os.path.join(cache, "target")])
+            sh(["rsync", "-a", "--exclude", "/debug/incremental", src_t + "/", os.path.join(cache, "target") + "/"])
         env["VERIF_REPO"] = repo
         env["VERIF_CACHE"] = cache
         env["VERIF_EVIDENCE_DIR"] = os.path.join(scratch, "evidence")
